@@ -417,17 +417,36 @@ def main(pid: str, argv):
         if case is None:
             print(json.dumps(payload, indent=1))
             return 1
-        res, err = run_impl(pid, [case])
+        if hasattr(mod, "run_impl_custom"):
+            res, err = mod.run_impl_custom([case])
+        else:
+            res, err = run_impl(pid, [case])
         r = res[0] if res else {"error": err}
         print("case:", json.dumps(case))
-        print("implementation:", json.dumps(r))
-        print("oracle:", json.dumps(mod.oracle(case)))
-        expr = mod.coq_show(case) if hasattr(mod, "coq_show") else None
-        if expr:
-            print("model:", coq_show(expr))
-        same = mod.agree(case, r, mod.oracle(case)) if mod.oracle(case) is not None else None
-        print("agree(implementation, oracle):", same)
-        return 0 if same else 1
+        print("implementation:", json.dumps(r)[:4000])
+        o = mod.oracle(case)
+        print("oracle:", json.dumps(o)[:4000])
+        try:
+            expr = mod.coq_show(case) if hasattr(mod, "coq_show") else None
+            if expr:
+                print("model:", coq_show(expr))
+        except Exception as ex:  # noqa
+            print("model: (rendering failed)", ex)
+        bad = False
+        if o is not None:
+            same = mod.agree(case, r, o)
+            print("agree(implementation, oracle):", same)
+            bad = bad or not same
+        e = mod.coq_check(case, r) if res else "MISMATCH"
+        if e == "MISMATCH":
+            print("agree(implementation, model): False (answer not expressible in the model's result type)")
+            bad = True
+        elif e is not None and ok:
+            codes, cerr = coq_eval_codes(pid + "r", [e if getattr(mod, "CODES", False) else f"cb ({e})"])
+            code = codes.get(0, 0)
+            print("agree(implementation, model):", {0: True, 1: False, 2: "outside the model's domain"}.get(code), cerr or "")
+            bad = bad or code == 1
+        return 1 if bad else 0
 
     # 3. cases
     corpus = load_corpus(pid)
